@@ -15,7 +15,9 @@ pub fn user_autocorrect() -> HashMap<String, String> {
     // overrides some bundled keys and adds new ones
     [("amar", "amaR"), ("ami", "tumi"), ("academy", "ekaDemi"), ("xyz", "onno"), ("kk", "kOk"), ("apni", "apni"), ("a", "A"), ("tmi", "tumi"), ("bd", "bangladesh"),
      // identity entries that override a bundled entry with another value
-     ("atm", "atm"), ("computer", "computer"), ("ok", "ok")]
+     ("atm", "atm"), ("computer", "computer"), ("ok", "ok"),
+     // an empty replacement, and replacements outside ASCII and the Bengali block (taken literally)
+     ("sob", ""), ("pi", "π"), ("caf", "café")]
         .iter()
         .map(|(k, v)| (k.to_string(), v.to_string()))
         .collect()
